@@ -733,6 +733,66 @@ def gen_clayton_table(rng, d, tries=10):
     return X, False
 
 
+def shadow_oracle(ctx, counts, rng):
+    """ambient user code must not change a vine: with user subclasses of the library families present (they share
+    `copula_type`) and the subclass registry rediscovered, Bivariate(copula_type=...) is still the LIBRARY family and
+    a fitted vine is observably the same.  The user classes are removed again (registry restored, gc)."""
+    import gc
+    from copulas.bivariate import Clayton, Frank, Gumbel
+    from copulas.bivariate.base import Bivariate, CopulaTypes
+    from copulas.multivariate.vine import VineCopula
+    counts['shadow-class checks'] += 1
+    X = gen_table(rng, 3, 'clayton', 70)
+    u = np.array([[rng.uniform(0.05, 0.95) for _ in range(3)]])
+    seed = rng.getrandbits(31)
+
+    def fitted():
+        with poisoned_empty(SENTINELS[0], SENTINELS[0]):
+            v = VineCopula('center')
+            v.fit(X, truncated=3)
+        return vine_signature(v, u, seed)
+    try:
+        before = fitted()
+    except Exception:  # noqa
+        counts['refused'] += 1
+        return
+    saved = Bivariate._subclasses
+
+    class _Rot:
+        def partial_derivative(self, X_):
+            return 1 - super().partial_derivative(1 - np.asarray(X_))
+
+        def probability_density(self, X_):
+            return super().probability_density(1 - np.asarray(X_))
+
+        def percent_point(self, y, V):
+            return 1 - super().percent_point(1 - np.asarray(y), 1 - np.asarray(V))
+    user = [type('User' + c.__name__, (_Rot, c), {}) for c in (Clayton, Frank, Gumbel)]
+    probs = []
+    try:
+        Bivariate._subclasses = []
+        for ct, lib in ((CopulaTypes.CLAYTON, Clayton), (CopulaTypes.FRANK, Frank), (CopulaTypes.GUMBEL, Gumbel)):
+            got = type(Bivariate(copula_type=ct))
+            if got is not lib:
+                probs.append({'copula_type': str(ct), 'Bivariate(copula_type=...) is': got.__name__, 'expected': lib.__name__})
+        try:
+            after = fitted()
+            diff = [k for k in before if before[k] != after.get(k)]
+            if diff:
+                probs.append({'fitted center vine differs in': diff})
+        except Exception as ex:  # noqa
+            probs.append({'fit with user subclasses present raised': f'{type(ex).__name__}: {str(ex)[:80]}'})
+    finally:
+        Bivariate._subclasses = saved
+        del user
+        gc.collect()
+    if probs:
+        counts['failures'] += 1
+        ctx.fail_input('Bivariate.__new__', dict(table_input(X, 'center', 3), user_classes='subclasses of Clayton / Frank / Gumbel '
+                       'sharing copula_type'), probs, 'Bivariate(copula_type=...) instantiates the library family; the vine '
+                       'depends only on (table, vine type)', 'Bivariate.__new__:user-subclass-shadows-library-family')
+
+
 def sampling_coherence(ctx, counts, rng, deep):
     """strongly lower-tail-dependent pairs (Clayton edge, theta >= 6): every inversion made by the sampler is exact
     (h(x|v) = y), and the two-column sample has the Kendall tau of the fitted pair copula (calibrated on the clean
@@ -1116,7 +1176,14 @@ def check_real(ctx, X, vt, t, counts, rng, deep):
     for k, tr in enumerate(v.trees):
         for i, e in enumerate(tr.edges):
             U = np.asarray(e.U, dtype=float)
-            if U.shape != (2, X.shape[0]) or not bool(np.all((U > 0) & (U < 1))):
+            if U.shape != (2, X.shape[0]):
+                counts['failures'] += 1
+                ctx.fail_input('VineCopula.fit', inp, {'tree': k + 1, 'edge': i, 'edge.U.shape': list(U.shape),
+                                                       'training rows': int(X.shape[0])},
+                               'edge.U holds one pseudo-observation per training row (2 x n)',
+                               'Tree.prepare_next_tree:U-row-count-differs-from-training-rows')
+                continue
+            if not bool(np.all((U > 0) & (U < 1))):
                 counts['failures'] += 1
                 ctx.fail_input('VineCopula.fit', inp, {'tree': k + 1, 'edge': i, 'min': float(np.nanmin(U)),
                                                        'max': float(np.nanmax(U)), 'nan': bool(np.isnan(U).any())},
@@ -1254,18 +1321,23 @@ def vine_signature(v, u, seed):
 
 def refit_oracle(ctx, A, tA, B, t, vt, counts, rng):
     """a fitted vine describes the table it was LAST fitted on: m.fit(A); m.fit(B) must be observably the vine a
-    fresh object gives on B (tree / marginal counts, every edge, get_likelihood on a probe, seeded sample)."""
+    fresh object gives on B (tree / marginal counts, every edge, get_likelihood on a probe, seeded sample).
+    ALL fits run with np.empty sentinel-filled inside copulas.multivariate.tree and .vine (the same sentinel): the
+    unchanged library's Tree.get_tau_matrix reads cells it never wrote (C19's recorded finding
+    `Tree.get_tau_matrix:reads-unwritten-cells`), so the structure of trees >= 3 of direct / regular vines depends
+    on memory garbage and two independent fits may legitimately differ; with the sentinel they read the same."""
     from copulas.multivariate.vine import VineCopula
     counts['refit histories'] += 1
+    S = SENTINELS[0]
     try:
-        with time_limit(3 * FIT_TIMEOUT_S):
+        with time_limit(3 * FIT_TIMEOUT_S), poisoned_empty(S, S):
             fresh = VineCopula(vt)
             fresh.fit(B, truncated=t)
     except Exception:  # noqa
         counts['refused'] += 1
         return
     try:
-        with time_limit(3 * FIT_TIMEOUT_S):
+        with time_limit(3 * FIT_TIMEOUT_S), poisoned_empty(S, S):
             m = VineCopula(vt)
             m.fit(A, truncated=tA)
     except Exception:  # noqa
@@ -1275,7 +1347,7 @@ def refit_oracle(ctx, A, tA, B, t, vt, counts, rng):
            'A': {'columns': list(A.columns), 'rows': A.to_numpy().tolist()},
            'B': {'columns': list(B.columns), 'rows': B.to_numpy().tolist()}}
     try:
-        with time_limit(3 * FIT_TIMEOUT_S):
+        with time_limit(3 * FIT_TIMEOUT_S), poisoned_empty(S, S):
             m.fit(B, truncated=t)
     except Exception as ex:  # noqa
         counts['failures'] += 1
@@ -1415,7 +1487,7 @@ def new_counts():
             'lik-wrong-value': 0, 'lik-nan-agrees': 0, 'two-column stats': 0, 'refit histories': 0,
             'edges U-checked': 0, 'quantile checks': 0, 'object states': 0, 'vine-sum checks': 0,
             'clayton tables': 0, 'clayton-generated tables with another family': 0, 'inversions checked': 0,
-            'two-column tau checks': 0}
+            'two-column tau checks': 0, 'shadow-class checks': 0}
 
 
 def search(ctx, deep):
@@ -1433,7 +1505,12 @@ def search(ctx, deep):
             d = 2
         elif it == 4:
             d = rng.choice([5, 6])       # deep vines: truncation 4 and 5 for every vine type (below)
-        X = gen_table(rng, d, mode)
+        n_rows = None
+        if it == 5:
+            d, n_rows = 3, 257           # row counts around a block size: one h-value per training row
+        elif deep and it in (6, 7, 8):
+            d, n_rows = rng.choice([2, 3]), {6: 255, 7: 256, 8: 513}[it]
+        X = gen_table(rng, d, mode, n_rows)
         for vt in TYPES:
             ts = sorted({1, d - 1 if d > 2 else 1, d, rng.randint(1, d)}) if deep else [rng.choice([1, d - 1, d])]
             if it == 4:
@@ -1452,6 +1529,7 @@ def search(ctx, deep):
             tB = rng.randint(1, dB)
             refit_oracle(ctx, B, tB, B, tB, vt, counts, rng)
     sampling_coherence(ctx, counts, rng, deep)
+    shadow_oracle(ctx, counts, rng)
     # object states: restored via from_dict / Multivariate.from_dict / save+load / deepcopy, four label kinds
     for it in range(2 if deep else 1):
         for kind in LABEL_KINDS:
@@ -1476,6 +1554,9 @@ def replay(ctx, payload):
         refit_oracle(ctx, A, inp['truncated_A'], B, inp['truncated'], inp['vine_type'], counts, rng)
         return any(f['class'] == payload.get('class') for f in ctx.failing[before:])
     X = pd.DataFrame(np.array(inp['rows'], dtype=float), columns=inp['columns'])
+    if str(payload.get('class', '')).startswith('Bivariate.__new__'):
+        shadow_oracle(ctx, counts, rng)
+        return any(f['class'] == payload.get('class') for f in ctx.failing[before:])
     if payload.get('class') == 'VineCopula.sample:pair-copula-inversion-inaccurate':
         st, v, _ = real_fit(X, inp['vine_type'], inp['truncated'])
         return st == 'ok' and any(inversion_oracle(v, 40, sd)[0] for sd in (1, 2, 3))
